@@ -50,7 +50,7 @@ def signed (m : UInt32) (s : UInt8) : Int := if s = 1 then -(asI32 m) else asI32
 
 theorem finish_eq (b0 s : UInt8) (res m : UInt32) (hs : s ≤ 1) (hb : b0 &&& 1 = s) (hr : res = m)
     (hm : m < 0x80000000) : packedFinish b0 res = some (signed m s) := by
-  have h3 : m ≠ 0x80000000 := by bv_decide
+  have h3 : m ≠ 0x80000000 := by bv_decide (timeout := 300)
   subst hr
   simp only [packedFinish, hb, signed]
   by_cases h : s = 1 <;> simp [h, h3]
@@ -58,35 +58,35 @@ theorem finish_eq (b0 s : UInt8) (res m : UInt32) (hs : s ≤ 1) (hb : b0 &&& 1 
 theorem packed1 (m : UInt32) (s : UInt8) (r : Bytes) (hm : m < 0x40) (hs : s ≤ 1) :
     readPackedInt (packedBytes m s 1 ++ r) = some (signed m s, r) := by
   simp only [packedBytes, List.cons_append, List.nil_append]
-  rw [read1 _ _ (by bv_decide), finish_eq _ s _ m hs (by bv_decide) (by simp only [first]; bv_decide) (by bv_decide)]
+  rw [read1 _ _ (by bv_decide (timeout := 300)), finish_eq _ s _ m hs (by bv_decide (timeout := 300)) (by simp only [first]; bv_decide (timeout := 300)) (by bv_decide (timeout := 300))]
   rfl
 
 theorem packed2 (m : UInt32) (s : UInt8) (r : Bytes) (hm : m < 0x2000) (hs : s ≤ 1) :
     readPackedInt (packedBytes m s 2 ++ r) = some (signed m s, r) := by
   simp only [packedBytes, List.cons_append, List.nil_append]
-  rw [read2 _ _ _ (by bv_decide) (by bv_decide),
-    finish_eq _ s _ m hs (by bv_decide) (by simp only [first, grp]; bv_decide) (by bv_decide)]
+  rw [read2 _ _ _ (by bv_decide (timeout := 300)) (by bv_decide (timeout := 300)),
+    finish_eq _ s _ m hs (by bv_decide (timeout := 300)) (by simp only [first, grp]; bv_decide (timeout := 300)) (by bv_decide (timeout := 300))]
   rfl
 
 theorem packed3 (m : UInt32) (s : UInt8) (r : Bytes) (hm : m < 0x100000) (hs : s ≤ 1) :
     readPackedInt (packedBytes m s 3 ++ r) = some (signed m s, r) := by
   simp only [packedBytes, List.cons_append, List.nil_append]
-  rw [read3 _ _ _ _ (by bv_decide) (by bv_decide) (by bv_decide),
-    finish_eq _ s _ m hs (by bv_decide) (by simp only [first, grp]; bv_decide) (by bv_decide)]
+  rw [read3 _ _ _ _ (by bv_decide (timeout := 300)) (by bv_decide (timeout := 300)) (by bv_decide (timeout := 300)),
+    finish_eq _ s _ m hs (by bv_decide (timeout := 300)) (by simp only [first, grp]; bv_decide (timeout := 300)) (by bv_decide (timeout := 300))]
   rfl
 
 theorem packed4 (m : UInt32) (s : UInt8) (r : Bytes) (hm : m < 0x8000000) (hs : s ≤ 1) :
     readPackedInt (packedBytes m s 4 ++ r) = some (signed m s, r) := by
   simp only [packedBytes, List.cons_append, List.nil_append]
-  rw [read4 _ _ _ _ _ (by bv_decide) (by bv_decide) (by bv_decide) (by bv_decide),
-    finish_eq _ s _ m hs (by bv_decide) (by simp only [first, grp]; bv_decide) (by bv_decide)]
+  rw [read4 _ _ _ _ _ (by bv_decide (timeout := 300)) (by bv_decide (timeout := 300)) (by bv_decide (timeout := 300)) (by bv_decide (timeout := 300)),
+    finish_eq _ s _ m hs (by bv_decide (timeout := 300)) (by simp only [first, grp]; bv_decide (timeout := 300)) (by bv_decide (timeout := 300))]
   rfl
 
 theorem packed5 (m : UInt32) (s : UInt8) (r : Bytes) (hm : m < 0x80000000) (hs : s ≤ 1) :
     readPackedInt (packedBytes m s 5 ++ r) = some (signed m s, r) := by
   simp only [packedBytes, List.cons_append, List.nil_append]
-  rw [read5 _ _ _ _ _ _ (by bv_decide) (by bv_decide) (by bv_decide) (by bv_decide) (by bv_decide),
-    finish_eq _ s _ m hs (by bv_decide) (by simp only [first, grp]; bv_decide) hm]
+  rw [read5 _ _ _ _ _ _ (by bv_decide (timeout := 300)) (by bv_decide (timeout := 300)) (by bv_decide (timeout := 300)) (by bv_decide (timeout := 300)) (by bv_decide (timeout := 300)),
+    finish_eq _ s _ m hs (by bv_decide (timeout := 300)) (by simp only [first, grp]; bv_decide (timeout := 300)) hm]
   rfl
 
 /-! ### all widths -/
@@ -100,7 +100,7 @@ theorem lt_of_minWidth (m : UInt32) :
     (minWidth m ≤ 4 → m < 0x8000000) := by
   unfold minWidth
   repeat' split
-  all_goals (refine ⟨?_, ?_, ?_, ?_⟩ <;> intro h <;> first | omega | bv_decide)
+  all_goals (refine ⟨?_, ?_, ?_, ?_⟩ <;> intro h <;> first | omega | bv_decide (timeout := 300))
 
 theorem packedBytes_read (m : UInt32) (s : UInt8) (k : Nat) (r : Bytes) (hm : m < 0x80000000)
     (hs : s ≤ 1) (hk : minWidth m ≤ k) :
